@@ -264,10 +264,27 @@ def gen_config_variation(rng, sc):
                 chunk_size=rng.randrange(1, len(sc.cell_ids) + 4),
                 n_processors=rng.randrange(1, 5),
                 bootstrap_factor=rng.choice([0.5, 0.75, 1.0, 0.25, 0.875]),
-                bootstrap_iteration=rng.choice([1, 2, 5, 8]),
+                bootstrap_iteration=rng.choice([1, 2, 5, 8, 8, 5, 2, 1, 260]),
                 rng_seed=rng.randrange(1, 10 ** 6),
                 n_runners_up=rng.choice([0, 1, 2, 5]),
                 min_markers=rng.choice([0, 1, 2, 3, 5]))
+
+
+# Scenarios that random generation reaches too rarely; they open every batch.
+# (non-leaf child counts per level, n_cells, config overrides)
+SPECIAL = [
+    # a single top node with a single child above a real choice: the trivial chain at the top
+    ([[1], [1], [3]], None, dict(flatten=False, drop_level=None)),
+    ([[1], [1], [1], [2]], None, dict(flatten=False, drop_level=None)),
+    # single-child parents below a real choice
+    ([[2], [1, 2], [1, 1, 2]], None, dict(flatten=False, drop_level=None)),
+    # many cells in small chunks: chunk start rows with different numbers of digits (0, 7, 14, 21 ...)
+    ([[2], [2, 2]], 23, dict(chunk_size=7, n_processors=1, flatten=False, drop_level=None)),
+    ([[3]], 31, dict(chunk_size=3, n_processors=4)),
+    # more bootstrap iterations than a byte can count
+    ([[2], [2, 1]], 4, dict(bootstrap_iteration=300, bootstrap_factor=0.5, flatten=False, drop_level=None)),
+    ([[3]], 3, dict(bootstrap_iteration=700, bootstrap_factor=1.0)),
+]
 
 
 def run_batch(ctx, n_runs, prefixes, label, max_levels=4, max_leaves=8, raise_is_violation=False):
@@ -275,8 +292,16 @@ def run_batch(ctx, n_runs, prefixes, label, max_levels=4, max_leaves=8, raise_is
     `prefixes` are reported for ctx.pid."""
     rng = ctx.rng
     for k in range(n_runs):
-        sc = pipeline.gen_scenario(rng, max_levels=max_levels, max_leaves=max_leaves)
-        var = gen_config_variation(rng, sc)
+        if k < len(SPECIAL):
+            shape, ncell, over = SPECIAL[k]
+            sc = pipeline.gen_scenario(rng, tree=trees.build(shape, rng), n_cells=ncell)
+            var = gen_config_variation(rng, sc)
+            var.update(over)
+            ctx.dist('special_scenario', k)
+        else:
+            sc = pipeline.gen_scenario(rng, max_levels=max_levels, max_leaves=max_leaves,
+                                       n_cells=rng.randrange(11, 41) if rng.random() < 0.15 else None)
+            var = gen_config_variation(rng, sc)
         enc = rng.choice(['dense', 'csr', 'csc'])
         d = ctx.scratch / f'{label}_{k}'
         d.mkdir()
